@@ -220,11 +220,13 @@ class Message(BaseMessage):
                                  'attribute {}'.format(self.type,
                                                        name))
         else:
-            check_value(name, value)
             if name == 'data':
-                vars(self)['data'] = SysexData(value)
-            else:
-                vars(self)[name] = value
+                # Convert first and check what will be stored: the value
+                # may be an iterable that can only be iterated over once
+                # (or that gives something else the second time).
+                value = SysexData(value)
+            check_value(name, value)
+            vars(self)[name] = value
 
     __setattr__ = _setattr
 
